@@ -291,6 +291,12 @@ def c02_candidates(P, uni):
     _blk(P, [], 'reward-plus-1-nofees', out, cb_outs=[(sub + 1, M)])
     _blk(P, [], 'reward-exact-nofees', out, control=True, cb_outs=[(sub, M)])
     _blk(P, [], 'reward-claims-absent-fee', out, cb_outs=[(sub + fee, M)])
+    # a transaction paying the same key twice (equal and different amounts): the reward may claim its real fee, not more
+    for nm, a, b in (('equal', COIN // 2, COIN // 2), ('different', COIN // 2, COIN // 2 - 1)):
+        Td = mk_tx([(o_ref, K[0])], [(a, K[1]), (b, K[1]), (v - a - b - fee, K[0])])
+        _blk(P, [Td], 'two-outputs-to-one-key-%s-reward-exact' % nm, out, control=True, cb_outs=[(sub + fee, M)])
+        _blk(P, [Td], 'two-outputs-to-one-key-%s-reward-claims-first' % nm, out, cb_outs=[(sub + fee + a, M)])
+        _blk(P, [Td], 'two-outputs-to-one-key-%s-reward-claims-second' % nm, out, cb_outs=[(sub + fee + b, M)])
     _blk(P, [], 'states-parent-height+reward-plus-1', out, cb_outs=[(sub + 1, M)], height=P.height)
     _blk(P, [T0], 'reward-split-3-exact', out, control=True, cb_outs=[(sub, M), (fee - 1, K[1]), (1, K[2])])
     _blk(P, [T0], 'reward-split-3-plus-1', out, cb_outs=[(sub, M), (fee, K[1]), (1, K[2])])
